@@ -229,6 +229,15 @@ def o114(ctx):
                         raise Unsupported(f"{q}: expected one call of cryomap.write", fn)
                     b = bind(ctx.prog, WR, evs[0])
                     node = evs[0].node
+                    # the converted file is written on every path: nothing but the configured options may stand between the call and the write
+                    gs = [g for g in evs[0].guards if not (g.op == "call" and g.args[0] == "in_loop")]
+                    early = [e for e in it.events[:it.events.index(evs[0])] if e.kind == "return" and e.name.endswith(q)]
+                    gs += [g for e in early for g in e.guards] or ([const("an earlier return")] if early else [])
+                    ctx.count(1)
+                    if gs:
+                        ctx.finding(q, "file written on every path", f"{q} does not write the converted file on every path (it returns early / writes only "
+                                    f"under the condition {tm.show(gs[0])[:120]}): a file of that name left from an earlier call (other options, other "
+                                    "content) stays in place as if it were the result", early[0].node if early else node, m)
                     want_name = explicit if explicit is not None else f"{stem}.{dst_ext}"
                     got_name = b.get("file_name")
                     ctx.count(1, {"function": q, "input": name, "invert": invert, "output_name": explicit,
@@ -301,4 +310,4 @@ def _obligations():
 
 
 def obligations():
-    return _obligations() + [labels_obligation("C11"), selectors_obligation("C11"), effects_obligation("C11"), plumbing_obligation("C11")]
+    return _obligations() + [labels_obligation("C11"), selectors_obligation("C11"), effects_obligation("C11"), plumbing_obligation("C11"), overrides_obligation("C11"), options_obligation("C11")]
